@@ -311,9 +311,39 @@ def r2(chk, repo, d):
                     c.func, ast.Attribute) and c.func.attr == "append" \
                     and len(c.args) == 5:
                 out = ("emit", c, paths.substitute(c.args[0], p.env))
+            if isinstance(c, ast.Call) and isinstance(
+                    c.func, ast.Attribute) and c.func.attr == "calculate" \
+                    and unparse(c.func.value) == "value" and len(
+                        c.args) >= 2:
+                out = ("calc", c, paths.substitute(c.args[1], p.env))
         return out
     ps = paths.explore(f, on, fact_events=True)
     chk.stats["paths"] += len(ps)
+    # the amount (or value) is computed at the width of the variable: a
+    # 32-bit amount added to a 64-bit variable is widened (sign-extended)
+    # first - the add happens in memory, at the variable's size
+    mc = repo.cls(E + "Memory")
+    wbad, nw = [], 0
+    for p in ps:
+        for e in p.events:
+            if e[0] != "calc":
+                continue
+            for fmt in ("I", "i", "q", "Q", "x", ">Q", "<q", "<I"):
+                try:
+                    got = Evaluator(repo, f._module, mc).eval(
+                        e[2], {"self": Obj(mc, {"fmt": fmt})})
+                except (Unknown, Raised):
+                    continue
+                nw += 1
+                if bool(got) != (fmt[-1] in "qQx") or (
+                        got is None and fmt[-1] in "qQx"):
+                    wbad.append((e[1], f"format {fmt!r}: value computed "
+                                       f"with long={got!r}"))
+    chk.ob("R06.2", sym, "the value stored or added is computed at the "
+           "width of the variable", not wbad, wbad[0][0] if wbad else f,
+           (wbad[0][1] + " on a path of Memory._set: a signed 32-bit amount "
+            "added to a 64-bit variable is not sign-extended, -5 is added "
+            "as 4294967291") if wbad else f"{nw} (path, format) pairs")
     # the marker is looked for on the value as it was assigned: anything
     # that re-binds `value` first (scaling, wrapping) goes through IAdd's
     # own operators and may hand back a plain expression
